@@ -5,6 +5,7 @@ import (
 	"fmt"
 	"io"
 	"math"
+	"os"
 	"os/exec"
 	"strconv"
 	"strings"
@@ -29,6 +30,13 @@ type Stats struct {
 	Errors   int
 	Seconds  float64
 	Fallback int // queries answered by a portfolio solver after the primary said unknown
+	ByTag    map[string]TagStat
+}
+
+type TagStat struct {
+	N       int
+	Seconds float64
+	Unknown int
 }
 
 func (s *Stats) Add(o Stats) {
@@ -39,6 +47,16 @@ func (s *Stats) Add(o Stats) {
 	s.Errors += o.Errors
 	s.Seconds += o.Seconds
 	s.Fallback += o.Fallback
+	for k, v := range o.ByTag {
+		if s.ByTag == nil {
+			s.ByTag = map[string]TagStat{}
+		}
+		t := s.ByTag[k]
+		t.N += v.N
+		t.Seconds += v.Seconds
+		t.Unknown += v.Unknown
+		s.ByTag[k] = t
+	}
 }
 
 // proc is one solver process speaking SMT-LIB2 over a pipe.
@@ -139,15 +157,28 @@ type Solver struct {
 	declVars map[string]bool
 	declFuns map[string]bool
 	LastErr  string
+	Fresh    bool   // every query from scratch (no push/pop): lets z3 use its tactic pipeline
+	Tag      string // attribution of the next queries (assertion label or "branch")
 }
 
 func NewSolver(timeoutMS int, portfolio bool) *Solver {
-	s := &Solver{TimeoutMS: timeoutMS}
-	s.primary = &proc{name: "z3", argv: []string{"z3", "-in"}, pre: fmt.Sprintf("(set-option :timeout %d)\n", timeoutMS)}
+	s := &Solver{TimeoutMS: timeoutMS, Fresh: os.Getenv("GOSYMX_FRESH") != "0"}
+	mk := func(name string) *proc {
+		switch name {
+		case "cvc5":
+			return &proc{name: "cvc5", argv: []string{"cvc5", "--lang=smt2", "--incremental", "--produce-models", fmt.Sprintf("--tlimit-per=%d", timeoutMS)}, pre: "(set-logic ALL)\n"}
+		default:
+			return &proc{name: name, argv: []string{name, "-in"}, pre: fmt.Sprintf("(set-option :timeout %d)\n", timeoutMS)}
+		}
+	}
+	order := []string{"z3", "z3-new", "cvc5"}
+	if v := os.Getenv("GOSYMX_SOLVERS"); v != "" {
+		order = strings.Split(v, ",")
+	}
+	s.primary = mk(order[0])
 	if portfolio {
-		s.portfolio = []*proc{
-			{name: "z3-new", argv: []string{"z3-new", "-in"}, pre: fmt.Sprintf("(set-option :timeout %d)\n", timeoutMS)},
-			{name: "cvc5", argv: []string{"cvc5", "--lang=smt2", "--incremental", "--produce-models", fmt.Sprintf("--tlimit-per=%d", timeoutMS)}, pre: "(set-logic ALL)\n"},
+		for _, n := range order[1:] {
+			s.portfolio = append(s.portfolio, mk(n))
 		}
 	}
 	return s
@@ -169,6 +200,9 @@ func (s *Solver) Begin(ctx *Ctx) {
 	s.declVars = map[string]bool{}
 	s.declFuns = map[string]bool{}
 }
+
+// Asserted returns the level-0 assertions of the current path.
+func (s *Solver) Asserted() []*Term { return s.asserted }
 
 func (s *Solver) Assert(t *Term) {
 	if v, ok := t.BoolVal(); ok && v {
@@ -238,6 +272,20 @@ func (s *Solver) wall() time.Duration {
 func (s *Solver) count(r Result, d time.Duration) {
 	s.Stats.Queries++
 	s.Stats.Seconds += d.Seconds()
+	if s.Stats.ByTag == nil {
+		s.Stats.ByTag = map[string]TagStat{}
+	}
+	tag := s.Tag
+	if tag == "" {
+		tag = "branch"
+	}
+	ts := s.Stats.ByTag[tag]
+	ts.N++
+	ts.Seconds += d.Seconds()
+	if r == Unknown {
+		ts.Unknown++
+	}
+	s.Stats.ByTag[tag] = ts
 	switch r {
 	case Sat:
 		s.Stats.SatN++
@@ -285,6 +333,22 @@ func (s *Solver) check(extra *Term, vars []*Term) (Result, map[string]ModelVal) 
 		}
 	}
 	t0 := time.Now()
+	if s.Fresh {
+		r, m := s.oneShot(s.primary, extra, vars)
+		s.sent = -1
+		if r == Unknown {
+			for _, p := range s.portfolio {
+				r2, m2 := s.oneShot(p, extra, vars)
+				if r2 != Unknown {
+					r, m = r2, m2
+					s.Stats.Fallback++
+					break
+				}
+			}
+		}
+		s.count(r, time.Since(t0))
+		return r, m
+	}
 	var sb strings.Builder
 	s.syncPrimary(&sb)
 	name := ""
@@ -378,6 +442,30 @@ func (s *Solver) oneShot(p *proc, extra *Term, vars []*Term) (Result, map[string
 		}
 	}
 	return res, model
+}
+
+// CheckSet decides satisfiability of the conjunction of set (∧ extra) from
+// scratch on the primary solver (then the portfolio), ignoring the path
+// condition held by the session; used with independence slicing.
+func (s *Solver) CheckSet(set []*Term, extra *Term) Result {
+	t0 := time.Now()
+	saved := s.asserted
+	s.asserted = set
+	r, _ := s.oneShot(s.primary, extra, nil)
+	if r == Unknown {
+		for _, p := range s.portfolio {
+			r2, _ := s.oneShot(p, extra, nil)
+			if r2 != Unknown {
+				r = r2
+				s.Stats.Fallback++
+				break
+			}
+		}
+	}
+	s.asserted = saved
+	s.sent = -1
+	s.count(r, time.Since(t0))
+	return r
 }
 
 // CheckWith decides the query on a given portfolio index (0 = primary one-shot
